@@ -82,8 +82,24 @@ class Prop(BaseProp):
         home = os.path.join(sb, "home")
         os.makedirs(home, exist_ok=True)
         argv = list(inputs)
+        uenv = {}
         if user is not None:
-            fsrun.write_yaml(os.path.join(home, ".config", "cminx", "config.yaml"), user)
+            # where the per-user file lives: the default place below HOME, a directory named by CMINXDIR, below
+            # XDG_CONFIG_HOME, or below an entry of XDG_CONFIG_DIRS (confuse looks in all of them)
+            loc = self.user_loc
+            if loc == "cminxdir":
+                udir = os.path.join(sb, "by_cminxdir")
+                uenv["CMINXDIR"] = udir
+            elif loc == "xdg_home":
+                uenv["XDG_CONFIG_HOME"] = os.path.join(sb, "xdg_home")
+                udir = os.path.join(sb, "xdg_home", "cminx")
+            elif loc == "xdg_dirs":
+                uenv["XDG_CONFIG_DIRS"] = os.path.join(sb, "nothing_here") + os.pathsep + os.path.join(sb, "xdg_dir2")
+                udir = os.path.join(sb, "xdg_dir2", "cminx")
+            else:
+                udir = os.path.join(home, ".config", "cminx")
+            self.user_dir = udir
+            fsrun.write_yaml(os.path.join(udir, "config.yaml"), user)
         if sfile is not None:
             p = os.path.join(sb, "cfgdir", "s.yaml")
             fsrun.write_yaml(p, sfile)
@@ -97,7 +113,7 @@ class Prop(BaseProp):
             return real(input_file, settings)
         self.m.document = wrapper
         try:
-            o = runner.run_main(argv, cwd=cwd, home=home)
+            o = runner.run_main(argv, cwd=cwd, home=home, env=uenv)
         finally:
             self.m.document = real
         return o, captured, argv
@@ -107,8 +123,24 @@ class Prop(BaseProp):
         home = os.path.join(sb, "home")
         os.makedirs(home, exist_ok=True)
         argv = ["input.cmake"]
+        uenv = {}
         if user is not None:
-            fsrun.write_yaml(os.path.join(home, ".config", "cminx", "config.yaml"), user)
+            # where the per-user file lives: the default place below HOME, a directory named by CMINXDIR, below
+            # XDG_CONFIG_HOME, or below an entry of XDG_CONFIG_DIRS (confuse looks in all of them)
+            loc = self.user_loc
+            if loc == "cminxdir":
+                udir = os.path.join(sb, "by_cminxdir")
+                uenv["CMINXDIR"] = udir
+            elif loc == "xdg_home":
+                uenv["XDG_CONFIG_HOME"] = os.path.join(sb, "xdg_home")
+                udir = os.path.join(sb, "xdg_home", "cminx")
+            elif loc == "xdg_dirs":
+                uenv["XDG_CONFIG_DIRS"] = os.path.join(sb, "nothing_here") + os.pathsep + os.path.join(sb, "xdg_dir2")
+                udir = os.path.join(sb, "xdg_dir2", "cminx")
+            else:
+                udir = os.path.join(home, ".config", "cminx")
+            self.user_dir = udir
+            fsrun.write_yaml(os.path.join(udir, "config.yaml"), user)
         if sfile is not None:
             p = os.path.join(sb, "cfgdir", "s.yaml")
             fsrun.write_yaml(p, sfile)
@@ -121,7 +153,7 @@ class Prop(BaseProp):
             captured.append((input_file, copy.deepcopy(settings)))
         self.m.document = wrapper
         try:
-            o = runner.run_main(argv, cwd=cwd, home=home)
+            o = runner.run_main(argv, cwd=cwd, home=home, env=uenv)
         finally:
             self.m.document = real
         return o, captured, argv
@@ -197,7 +229,18 @@ class Prop(BaseProp):
                 kind = "layering" if (sec, opt) in expected else "unset-option-not-default"
                 res.violate(f"{kind}:{ty}:{tag}", f"{sec}.{opt} = {got!r}, expected {want!r}", wit)
 
+    user_loc = "home"
+    user_dir = None
+
     def run_case(self, idx, rng):
+        self.user_loc = ["home", "home", "cminxdir", "xdg_home", "xdg_dirs"][idx % 5]
+        self.user_dir = None
+        r_ = self._run_case(idx, rng)
+        if self.user_dir is not None:
+            r_.see("user_file_locations", self.user_loc)
+        return r_
+
+    def _run_case(self, idx, rng):
         res = CaseResult()
         with runner.sandbox() as sb:
             cwd = os.path.join(sb, "cwd")
@@ -293,7 +336,14 @@ class Prop(BaseProp):
                 assigns = [("output", "directory", {dsrc: rel})]
                 if rsrc:
                     assigns.append(("output", "relative_to_config", {rsrc: rval}))
-                # lower-priority sources may also set a (different, absolute) directory
+                # lower-priority sources may also set a (different, relative) directory: the value in effect is the one of the
+                # highest source, and it is resolved against the place of THAT source
+                if rng.random() < 0.5:
+                    lower = SOURCES[SOURCES.index(dsrc) + 1:]
+                    if lower:
+                        for ls_ in rng.sample(lower, rng.randint(1, len(lower))):
+                            assigns[0][2][ls_] = "from_" + ls_ + "/other"
+                        res.count("relative_dir_cases_with_losing_sources")
                 cli, sfile, user = self.build_sources(assigns)
                 o, cap, argv = self.invoke(sb, cli, sfile, user, cwd2)
                 eff_rel = bool(rsrc) and rval
@@ -301,7 +351,7 @@ class Prop(BaseProp):
                 if eff_rel and dsrc == "sfile":
                     base = os.path.join(sb, "cfgdir")
                 elif eff_rel and dsrc == "user":
-                    base = os.path.join(sb, "home", ".config", "cminx")
+                    base = self.user_dir
                 want = os.path.normpath(os.path.join(base, rel))
                 wit = {"dir_source": dsrc, "relative_to_config": (rsrc, rval), "cwd": cwd2, "argv": argv, "expected": want}
                 res.count("relative_dir_cases")
